@@ -451,7 +451,13 @@ func (im *Impl) Exec(o Op) (r Resp) {
 		ok, err := im.LS.Unlock(im.ctxOf(o.Sid), o.Name, im.RealKey(o.Key))
 		r.Ok, r.Err = ok, ErrName(err)
 	case "renew":
-		lk, err := im.LS.Renew(context.Background(), o.Name, im.RealKey(o.Key), o.T)
+		// over gRPC and REST a Renew arrives with its session's context like every other request; the
+		// session is not part of the line the model gets (M2's Renew does not look at it)
+		rctx := context.Background()
+		if o.Sid != "" && o.Sid != "-" {
+			rctx = im.ctxOf(o.Sid)
+		}
+		lk, err := im.LS.Renew(rctx, o.Name, im.RealKey(o.Key), o.T)
 		r.Err = ErrName(err)
 		if lk != nil && lk.Locked {
 			r.Ok = true
